@@ -525,3 +525,124 @@ def field_readers(prog, field, owner=None):
         if n:
             out[body.path] = n
     return out
+
+
+# ---------------------------------------------------------------------------
+# value origins (backward slice over single definitions, through calls that "carry" a value)
+# ---------------------------------------------------------------------------
+
+CARRIERS = {
+    # callee last segment -> argument index whose value is carried to the result
+    "clone": 0, "cloned": 0, "copied": 0, "as_ref": 0, "as_mut": 0, "as_str": 0, "as_deref": 0, "deref": 0, "deref_mut": 0,
+    "borrow": 0, "to_owned": 0, "to_string": 0, "into": 0, "from": 0, "ok_or_else": 0, "ok_or": 0, "inspect_err": 0, "map_err": 0,
+    "unwrap_or_default": 0, "as_slice": 0, "into_iter": 0, "iter": 0, "branch": 0, "unwrap": 0, "expect": 0,
+}
+
+
+def origin(body, op_or_place, depth=16, carriers=CARRIERS):
+    """Follow a value backwards to the call / constant / argument / field it comes from.
+    Passes through copies, refs, derefs, downcasts (`as Some`/`as Ok`/`as Continue`), tuple
+    fields of temporaries and the carrier calls above.
+    Returns ('call', bb, term) | ('const', k) | ('arg', local) | ('field', place) | ('unknown', x)"""
+    if isinstance(op_or_place, dict):
+        k = op_const(op_or_place)
+        if k is not None:
+            return ("const", k)
+        pl = op_place(op_or_place)
+    else:
+        pl = op_or_place
+    while depth > 0 and pl is not None:
+        depth -= 1
+        local, proj = pl
+        named = [p for p in proj if p.startswith(".") and not p[1:].isdigit()]
+        if named:
+            return ("field", pl)
+        if any(p in ("as Break", "as Err", "as None") for p in proj):
+            return ("unknown", pl)  # the error side of a carrier, not the carried value
+        if 0 < local <= body.argc:
+            return ("arg", local)
+        d = body.single_def(local)
+        if d is None:
+            # several defs: unknown unless all are the same kind of call
+            return ("unknown", pl)
+        b, i, rv = d
+        if i == TERM:
+            t = rv
+            if "fn" in t:
+                c = Callee(t["fn"])
+                last = c.path.split("::")[-1]
+                if last in carriers and len(t["args"]) > carriers[last]:
+                    a = t["args"][carriers[last]]
+                    k = op_const(a)
+                    if k is not None:
+                        return ("const", k)
+                    pl = op_place(a)
+                    continue
+            return ("call", b, t)
+        if rv["k"] in ("use", "cast"):
+            k = op_const(rv["op"])
+            if k is not None:
+                return ("const", k)
+            pl = op_place(rv["op"])
+            continue
+        if rv["k"] == "ref":
+            pl = P(rv["place"])
+            continue
+        if rv["k"] == "aggr" and rv["ak"] == "tuple":
+            idxs = [p for p in proj if p.startswith(".") and p[1:].isdigit()]
+            if idxs:
+                n = int(idxs[0][1:])
+                if n < len(rv["ops"]):
+                    a = rv["ops"][n]
+                    k = op_const(a)
+                    if k is not None:
+                        return ("const", k)
+                    pl = op_place(a)
+                    continue
+            return ("unknown", pl)
+        return ("rv", rv, b)
+    return ("unknown", pl)
+
+
+def origin_local(body, op_or_place, depth=16):
+    """the named user local (or argument) a reference/clone ultimately points to, if any"""
+    if isinstance(op_or_place, dict):
+        pl = op_place(op_or_place)
+    else:
+        pl = op_or_place
+    while depth > 0 and pl is not None:
+        depth -= 1
+        local, proj = pl
+        if body.local_name(local) and not [p for p in proj if p != "*"]:
+            return local
+        if [p for p in proj if p != "*"]:
+            return None
+        d = body.single_def(local)
+        if d is None or d[1] == TERM:
+            if d and "fn" in d[2]:
+                c = Callee(d[2]["fn"])
+                if c.path.split("::")[-1] in ("deref", "deref_mut", "as_ref", "as_mut", "borrow", "borrow_mut") and d[2]["args"]:
+                    pl = op_place(d[2]["args"][0])
+                    continue
+            return None
+        rv = d[2]
+        if rv["k"] in ("use", "cast"):
+            pl = op_place(rv["op"])
+        elif rv["k"] == "ref":
+            pl = P(rv["place"])
+        else:
+            return None
+    return None
+
+
+def call_origin_path(body, op):
+    o = origin(body, op)
+    if o[0] == "call" and "fn" in o[2]:
+        return Callee(o[2]["fn"]).path, o
+    return None, o
+
+
+def control_dependent_only_via(body, target_bb, edge):
+    """True iff every path from entry to target_bb takes `edge` (a, b)."""
+    r = body.reach([0], avoid_edges=[edge])
+    return target_bb not in r
